@@ -151,8 +151,11 @@ h("capability_raw_roundtrip", "sync::capability_raw_roundtrip::<S>", ["C07", "C0
 # =============================================================================================
 C11_STUBS = DEFAULT_STUBS + ["time"]
 UW_C11 = {r"^memcmp\.0$": 34}
-for fam in ("single_dial", "resync", "not_syncing"):
+for fam in ("single_dial", "not_syncing"):
     h("c11_" + fam, "engine_state::c11_%s::<S>" % fam, ["C11"], "quick", unwind=4, unwindset=UW_C11, stubs=C11_STUBS, family="c11_" + fam)
+h("c11_resync", "engine_state::c11_resync::<S, false>", ["C11"], "quick", unwind=4, unwindset=UW_C11, stubs=C11_STUBS, family="c11_resync")
+# the session ends with an ERROR on both sides (anyhow errors are expensive for CBMC: two of them here)
+h("c11_resync_failed", "engine_state::c11_resync::<S, true>", ["C11"], "quick", unwind=4, unwindset=UW_C11, stubs=C11_STUBS, family="c11_resync", cap=900)
 for f in (False, True):
     h("c11_redial_race_%d" % f, "engine_state::c11_redial_race::<S, %s>" % str(f).lower(), ["C11"], "quick", unwind=4,
       unwindset=UW_C11, stubs=C11_STUBS, family="c11_redial_race")
